@@ -62,8 +62,9 @@ def stepLine (s : S) (line : String) : S × String :=
   * a `registered` answer while `cur p` is still up = two live connections (`two-registered`);
   * a frame `delivered` on a connection that was answered `rejected` (`rejected-delivered`);
   * routes / relay entries created while the CURRENT connection(s) were registered must still be
-    counted by `routes p` / `relays p` (`live-routes-lost`, `live-relays-lost`): only a teardown of
-    the current connection may remove them, and that clears `cur`. -/
+    counted by `routes p` / `relays p` (`live-routes-lost`, `live-relays-lost`), and `peer p` must
+    still name `cur p` (`live-registration-lost`): only a teardown of the current connection may
+    remove them, and that clears `cur`. -/
 
 structure SpecSt where
   next : Nat := 0
@@ -134,6 +135,12 @@ def specLine (s : SpecSt) (line : String) : SpecSt × String :=
             lookup s.cur r.1 == some r.2.2.1 && lookup s.cur r.2.1 == some r.2.2.2)).length
         if n < must then (s, "fail live-relays-lost") else (s, "ok")
       | _, _ => (s, "fail unparsable-answer")
+    | ["peer", p], ["peer", c] =>
+      match p.toNat? with
+      | some p => (match lookup s.cur p with
+        | some k => if c = s!"c{k}" then (s, "ok") else (s, "fail live-registration-lost")
+        | none => (s, "ok"))
+      | none => (s, "ok")
     | _, _ => (s, "ok")
   | _ => (s, "bad-op")
 
